@@ -218,10 +218,15 @@ def st_threshold(draw, mode):
                                     st.floats(-1e6, 1e6, allow_nan=False)), min_size=1, max_size=8))
     if kind == "d":
         pairs = [["k%02d" % i, it] for i, it in enumerate(items)]
-        cur = approx_len(decode(["d", pairs])) + offset
-        padlen = target - cur - (len('"zz": ""') + 2)
+        # the padding entry sorts behind the first m entries: the text up to and including it has the target length, the
+        # remaining entries follow (m == len(pairs): the whole dict has the target length)
+        m = draw(st.sampled_from([len(pairs), len(pairs), draw(st.integers(1, len(pairs)))]))
+        head = pairs[:m]
+        pad_key = "k%02dz" % (m - 1)
+        cur = approx_len(decode(["d", head])) + offset
+        padlen = target - cur - (len('"%s": ""' % pad_key) + 2)
         if padlen >= 0:
-            pairs.append(["zz", "x" * padlen])
+            pairs = head + [[pad_key, "x" * padlen]] + pairs[m:]
         inner = ["d", pairs]
     else:
         cur = approx_len(items) + offset
@@ -238,8 +243,16 @@ def st_wraplist(draw, mode):
     size = draw(st.integers(1, 170))
     n = draw(st.integers(1, max(2, 700 // (size + 2))))
     jitter = draw(st.lists(st.integers(-3, 3), min_size=n, max_size=n))
-    kind = draw(st.sampled_from(["str", "int", "mix"]))
+    kind = draw(st.sampled_from(["str", "int", "mix", "scalars"]))
     items = []
+    if kind == "scalars":
+        # long lists of short scalars of mixed types (numbers next to booleans and None)
+        pool = draw(st.sampled_from([["i", "b"], ["i", "f", "b"], ["i", "f"], ["i", "b", "n"], ["b"], ["i", "f", "b", "n", "s"]]))
+        for _ in range(draw(st.integers(1, 60))):
+            k = draw(st.sampled_from(pool))
+            items.append({"i": draw(st.integers(-999, 99999)), "f": draw(st.floats(-1e3, 1e3, allow_nan=False)),
+                          "b": draw(st.booleans()), "n": None, "s": draw(st.text("ab", max_size=3))}[k])
+        return wrap(["l", items], wrappers)
     for i, j in enumerate(jitter):
         ln = max(1, size + j)
         if kind == "int" or (kind == "mix" and i % 2):
